@@ -44,7 +44,7 @@ def anchors(pid):
     raise SystemExit("unknown property " + pid)
 
 
-def targets(pid):
+def targets(pid, focused=True):
     """{relative file: set of function names or None (= whole file)}"""
     files, where = anchors(pid)
     out = {}
@@ -69,9 +69,10 @@ def targets(pid):
                     out.setdefault(f, set()).update(names)
             else:
                 out.setdefault(f, set())
-    for f in files:
-        if os.path.exists(os.path.join(REPO, f)) and f.endswith(".py"):
-            out.setdefault(f, set())
+    if not focused:
+        for f in files:
+            if os.path.exists(os.path.join(REPO, f)) and f.endswith(".py"):
+                out.setdefault(f, set())
     return out
 
 
@@ -173,6 +174,15 @@ def mutants_of(pid, rng, per_op=3):
     return sel
 
 
+def others_for(rel, pid):
+    out = []
+    for line in open(os.path.join(VERIF, "properties.jsonl")):
+        d = json.loads(line)
+        if d["id"] != pid and rel in d["anchors"]["files"]:
+            out.append(d["id"])
+    return out
+
+
 def stable_tests():
     b = json.load(open(BASELINE))
     return set(b["stable_pass"])
@@ -249,6 +259,19 @@ def run_one(job):
         missing = sorted(stable_tests() - passed)
         res["suite_missing"] = missing[:6]
         res["status"] = "KILLED-BY-SUITE" if missing else "SURVIVOR"
+        if missing or mu["op"] == "calibration":
+            return res
+        # a survivor of this property's check: do the checks of the other
+        # properties anchored in the same file see it?
+        for other in others_for(mu["file"], pid):
+            p = subprocess.run([os.path.join(VERIF, "bin", "check"), other,
+                                "--tier", "quick"], env=env,
+                               stdout=subprocess.PIPE,
+                               stderr=subprocess.STDOUT, timeout=1500)
+            if p.returncode == 1:
+                res["status"] = "KILLED-BY-OTHER-CHECK"
+                res["other"] = other
+                break
         return res
     except subprocess.TimeoutExpired:
         res["status"] = "TIMEOUT"
@@ -300,6 +323,9 @@ def main():
         tally[r["status"]] = tally.get(r["status"], 0) + 1
     print(pid, json.dumps(tally, sort_keys=True))
     for r in results:
+        if r["status"] == "KILLED-BY-OTHER-CHECK":
+            print("  (%s:%d [%s] killed by %s)" % (
+                r["file"], r["line"], r["op"], r["other"]))
         if r["status"] in ("SURVIVOR", "PASSES-CHECK",
                            "CHECK-MACHINERY-FAILURE", "TOOL-ERROR",
                            "TIMEOUT", "SUITE-UNREADABLE"):
